@@ -27,11 +27,12 @@ import (
 )
 
 type env struct {
-	c       *imapclient.Client
-	srv     *vimap.Server
-	cEnd    *vnet.End
-	results []string // "name.label=ok|err" (a slice: map operations would be reported by the race detector)
-	running int
+	c           *imapclient.Client
+	srv         *vimap.Server
+	cEnd        *vnet.End
+	results     []string // "name.label=ok|err" (a slice: map operations would be reported by the race detector)
+	running     int
+	loginNoCode bool // LOGIN is answered OK without a capability code
 }
 
 //go:norace
@@ -61,6 +62,10 @@ func setup(greeting string) *env {
 		case "SELECT":
 			return "* 2 EXISTS\r\n* FLAGS (\\Seen)\r\n" + c.Tag + " OK [READ-WRITE] done\r\n"
 		case "LOGIN":
+			if e.loginNoCode {
+				// no capability code: the client has to forget what it knew and ask again
+				return c.Tag + " OK done\r\n"
+			}
 			return c.Tag + " OK [CAPABILITY IMAP4rev1 IDLE] done\r\n"
 		case "LOGOUT":
 			return "* BYE bye\r\n" + c.Tag + " OK done\r\n"
@@ -230,6 +235,22 @@ func scenarios() []scenario {
 			e.caller("B", func(rec func(string, error)) {
 				_, err := e.c.Search(&imap.SearchCriteria{Body: []string{"\x80"}}, nil).Wait()
 				rec("search-literal", err)
+			})
+			return e.finish()
+		}},
+		{name: "login-without-capability-code+sync-literal-cmd", allOK: true, body: func() interface{} {
+			// the completion of LOGIN invalidates the capabilities while another caller's command sits
+			// in a synchronising literal, holding the encoder
+			e := setup("* OK [CAPABILITY IMAP4rev1] ready\r\n")
+			e.loginNoCode = true
+			e.caller("A", func(rec func(string, error)) { rec("login", e.c.Login("u", "p").Wait()) })
+			e.caller("B", func(rec func(string, error)) {
+				_, err := e.c.Search(&imap.SearchCriteria{Body: []string{"\x80"}}, nil).Wait()
+				rec("search-literal", err)
+			})
+			e.caller("C", func(rec func(string, error)) {
+				e.c.Caps()
+				rec("caps", nil)
 			})
 			return e.finish()
 		}},
